@@ -907,10 +907,12 @@ def rule_X(ctx):
     nfn['print'] = lambda *a, **k: None
     nfn['next'] = lambda it, *d: next(it, *d)
     edges = [('e0', 'A', 'B', 0, [(0.0, 0.0), (5.5, 1.25), (10.0, 0.0)]), ('e1', 'B', 'C', 1, [(10.0, 0.0), (10.0, 10.0)]),
-             ('e2', 'A', 'C', -1, [(0.0, 0.0), (-3.0, 4.0), (2.0, 12.5), (10.0, 10.0)]), ('e3', 'C', 'D', 0, [(10.0, 10.0), (20.125, 10.0)])]
+             ('e2', 'A', 'C', -1, [(0.0, 0.0), (-3.0, 4.0), (2.0, 12.5), (10.0, 10.0)]), ('e3', 'C', 'D', 0, [(10.0, 10.0), (20.125, 10.0)]),
+             # an edge travelled against its geometry whose two end nodes appear on no earlier edge
+             ('e4', 'F', 'G', -1, [(30.0, -5.0), (31.5, -2.0), (40.0, 2.5)]), ('e5', 'G', 'A', 1, [(40.0, 2.5), (0.0, 0.0)])]
     for sep, header in ((',', 1), (';', 1), (',', 0)):
         n_cases += 1
-        case = {'network': 'four edges (orientations 0, 1, -1, 0; multi-vertex geometries)', 'separator': sep, 'header rows': header}
+        case = {'network': 'six edges (orientations 0, 1, -1, 0, -1, 1; multi-vertex geometries)', 'separator': sep, 'header rows': header}
         try:
             net = H.Network()
             nodes = {}
